@@ -267,6 +267,11 @@ func (im *impl) Exec(h *vh.H, op string) string {
 			return "bad-op"
 		}
 		return im.execQuery(h, op, nodes)
+	case "deep": // deepchild.go
+		if len(nodes) < 5 {
+			return "bad-op"
+		}
+		return im.execDeep(h, op, nodes)
 	case "hist": // history.go
 		if len(nodes) < 3 {
 			return "bad-op"
